@@ -151,14 +151,19 @@ CHECKS = {
              'the whole list or raises the parser exception, within depth 6n+6; the lexer model ends on EVERY text with tokens or one of its two parser exceptions - every scanner '
              'consumes at least one character, the loop neither spins nor exhausts its fuel (lexer_ends, generated_lexer_table_ok on the regenerated table) - so text -> tree '
              'is total (front_end_total). Together with C05 (no None escapes, nothing truncated) this is the model-level totality of lexing + parsing. '
+             'The MEMO TABLE of CompositeBaseToken.get (key = class, number of remaining tokens) is in the model (Model/PegMemo.lean): memo_transparent / parse_total_memo - for every '
+             'grammar and token list the parser with the table answers exactly as the parser without it (table invariant over the suffixes of one token list, fuel monotonicity, '
+             'simulation), and parse_steps_bound / generated_parse_steps_bound - for every grammar without left recursion `_get` is executed at most once per (class, position), i.e. '
+             'at most |classes|*(n+1) times, whatever the outcome (ghost log of executed keys without repetition: executions in progress have a strictly larger measure). '
+             'The number of `_get` executions of the real parser is compared with the model\'s count, formula by formula (exact equality), so the bound is tied to the code. '
              'The remaining clauses are measured on the real code: outcome classes of translate / compile / exec / evaluate over grammar-derived formulas, mutants and an '
              'adversarial list (no foreign exception, no class that fails to load, titles and sizes carried, constants evaluate to the stored value), a step counter on '
              'CompositeBaseToken._get against |classes|*(n+1), wall-clock bounds, dependency chains to 2000 cells through the facade, class_file vs class_object; brackets / operator chains / signs / percents / nested functions / '
              'argument lists of 30..3000 elements and literals of up to 100000 characters through the facade in a worker process with a 60 s limit.',
-        note='Partial: "never hangs" is a runtime fact - termination and a depth bound are proved for the parser model, parse steps and time are measured; the translators (one per '
+        note='Partial: "never hangs" is a runtime fact - termination, a depth bound and a polynomial bound on parse steps are proved for the parser model (the step count is tied to the real parser by exact correspondence), wall-clock time is measured; the translators (one per '
              'function) are exercised, not modelled: that none of them raises a foreign exception is established by the outcome-class sweep over the grammar-derived inputs only. '
              'Exceptions at EVALUATION of a member (text arithmetic, 1/0, wrong argument types) are results of the formula and are not counted.',
-        technique='Lean 4 termination proof generic in the grammar + regenerated rank table (Tie A) + outcome-class sweep, step counter and time bounds on the real code', design='5/C06'),
+        technique='Lean 4 proofs generic in the grammar (termination, depth bound, memo-table transparency, at-most-once-per-(class, position) step bound) + regenerated rank table (Tie A) + outcome-class sweep, exact step-count correspondence and time bounds on the real code', design='5/C06'),
     'C07': dict(
         text='Lean 4 theorem quote_roundtrip: for EVERY text s and whatever follows it, the characters repr(s) writes lex (model of CPython string-literal lexing: quote choice, '
              '\\\\ \\\' \\" \\n \\r \\t \\xNN) as exactly one string literal whose value is s, and lexing resumes right after it (literal_is_one_token) - by induction over the text with a '
